@@ -4,6 +4,7 @@
 #include <stddef.h>
 #include <stdint.h>
 #include <stdlib.h>
+#include "atomic_bool.h"
 /* std::thread(F): stores a decayed copy of the callable object and invokes it exactly once on a new thread at an
  * arbitrary later time (here: immediately = "early", or when the harness says so = "late"); join() returns only after
  * that invocation has returned. */
